@@ -241,7 +241,9 @@ void harness(void)
                     VP_ASSERT(exists == (in_file || registered), "a node exists exactly when the last file names it or code registered it");
                     if (exists) {
                         VP_ASSERT(streq(v, want), "a setting equals the last file's value, else its registered default");
+#ifndef REPLAY
                         VP_ASSERT(v == NULL || __CPROVER_r_ok(v, 2), "the value is live memory owned by the live tree");
+#endif
                     }
                     if (registered && existed[i]) {
                         int changed = !streq(before[i], want);
